@@ -60,6 +60,19 @@ SPHERES_XML = """
 """
 
 
+def _tree_xml(nchain, length):
+  """One kinematic tree with 1 + nchain*length hinge dofs (> 64: sparse LDL region): a root link carrying nchain serial
+  chains.  Trees built with the same product have the same nv but a different depth (number of elimination levels)."""
+  out = ['<mujoco><option timestep="0.002"/><worldbody><body pos="0 0 2"><joint type="hinge" axis="0 1 0" armature="0.05"/>', '<geom type="sphere" size="0.05" mass="1" contype="0" conaffinity="0"/>']
+  for c in range(nchain):
+    for k in range(length):
+      ax = ("1 0 0", "0 1 0", "0 0 1")[(c + k) % 3]
+      out.append(f'<body pos="{0.05 if k else 0.1 * (c + 1)} {0.02 * c} -0.04"><joint type="hinge" axis="{ax}" armature="0.05" damping="0.05"/><geom type="capsule" size="0.01 0.02" mass="0.05" contype="0" conaffinity="0"/>')
+    out.append("</body>" * length)
+  out.append("</body></worldbody></mujoco>")
+  return "".join(out)
+
+
 def pool():
   import mujoco
 
@@ -89,6 +102,9 @@ def pool():
   P.append({"scene": {"kind": "xml", "xml": SPHERES_XML.replace("CONDIM", "6"), "opt": {"cone": "pyramidal", "jacobian": "dense"}}, "tag": "spheres:condim6:pyramidal:dense"})
   P.append({"scene": {"kind": "xml", "xml": SPHERES_XML.replace("CONDIM", "4"), "opt": {"cone": "elliptic", "jacobian": "dense", "solver": "CG"}}, "tag": "spheres:condim4:elliptic:dense:cg"})
   P.append({"scene": {"kind": "gen", "seed": 424277, "profile": "bigtree"}, "tag": "gen:bigtree"})
+  # same nv (71), different tree depth: kernels specialised on more than nv must not be shared between them
+  for nchain, length in ((10, 7), (7, 10), (2, 35)):
+    P.append({"scene": {"kind": "xml", "xml": _tree_xml(nchain, length), "opt": {}}, "tag": f"tree71:depth{length}"})
   for s in range(6):
     P.append({"scene": {"kind": "gen", "seed": 424200 + s, "profile": ("full", "free", "joints")[s % 3]}, "tag": f"gen{s}"})
   P.append({"scene": {"kind": "gen", "seed": 424299, "profile": "free", "override": {"solvers": ("Newton",)}, "opt": {"enable": int(E.mjENBL_SLEEP)}}, "tag": "gen:sleep"})
@@ -105,6 +121,9 @@ DIRECTED = [
   ("humanoid", ["humanoid:cg:sparse", "humanoid:njmax48", "gen:bigtree"]),
   ("constraints", ["constraints:sparse:elliptic", "gen:sleep"]),
   ("gen:bigtree", ["humanoid", "pendula"]),
+  ("tree71:depth7", ["tree71:depth35"]),
+  ("tree71:depth35", ["tree71:depth7", "tree71:depth10"]),
+  ("tree71:depth10", ["tree71:depth7", "gen:bigtree"]),
 ]
 
 
@@ -160,10 +179,17 @@ def run_case(case):
       # a crash of the library in the child is a finding of C17; here the case is not decided
       rec.inconcl(f"child {name} failed: {r['error']} {r.get('stderr', '')[-300:]}")
       return rec.result()
+  if "error" in alone["target"]:
+    rec.inconcl(f"target raises when run alone (C17's subject): {alone['target']['error']}")
+    return rec.result()
   if "rejected" in alone["target"]:
     rec.rejected = alone["target"]["rejected"]
     return rec.result()
   rec.check()
+  if "error" in after["target"]:
+    et = after["target"]["error"].split(":")[0]
+    rec.viol(f"target-raises-only-after-program:{et}", f"target runs alone but raises after the program: {after['target']['error']} ... {after['target'].get('where', '')[-300:]}; target={P[case['target']]['tag']} after program {[P[i]['tag'] for i in case['program']]}")
+    return rec.result()
   if "rejected" in after["target"]:
     rec.viol("target-rejected-after-program", f"target accepted alone but rejected after program: {after['target']['rejected']}")
     return rec.result()
